@@ -30,6 +30,13 @@ func runRoots(c *Ctx) []*ssa.Function {
 
 func runC11(c *Ctx) {
 	R := c.R
+	// shared with C09 (R09.1): a reply to ANOTHER run's probe is just an unrelated packet for this run – every error the matcher
+	// builds from packet content must be retryable, otherwise a concurrent run's traffic aborts this one
+	{
+		ea := NewErrAnalysis(c)
+		roots, _ := inboundRoots(c)
+		checkErrClasses(c, ea, roots, "R09.1")
+	}
 	forEachMatcher(c, "R11", func(m *matcherCtx) {
 		for si, s := range m.sites {
 			if s.Ret == nil {
